@@ -48,7 +48,12 @@ class Mangler:
         self.seen.extend(copy.copy(e) for e in batch[-20:])
         del self.seen[:-200]
         out = []
-        if self.held and (self.flush or rng.random() < 0.5):
+        ordered = "delay" not in self.kinds and "permute" not in self.kinds
+        if self.held and ordered and batch:
+            # per-event batching must not reorder: everything held back goes out before anything newer
+            out.extend(self.held)
+            del self.held[:]
+        elif self.held and (self.flush or rng.random() < 0.5):
             n = len(self.held) if self.flush else rng.randrange(1, len(self.held) + 1)
             out.extend(self.held[:n])
             del self.held[:n]
@@ -86,6 +91,7 @@ class Mangler:
             rng.shuffle(out)
             st["permuted_batches"] += 1
         if "split" in self.kinds and len(out) > 1 and not self.flush:
+            # what is emitted here is older than whatever is still held (see above), so it goes back in front
             self.held = out[1:] + self.held
             out = out[:1]
             st["split_batches"] += 1
